@@ -1,5 +1,5 @@
 """One function per property: check_<id>(tier) -> exit code."""
-import json, os, sys, shutil, re
+import json, os, sys, shutil, re, itertools
 from common import *
 import lockstep, random
 import gen_linear as GL
@@ -151,9 +151,9 @@ def mc_heap(pid, tier, invariant, emit_histories=False):
                 m = re.findall(r"(\d+) states checked, (\d+) traces generated", txt)
                 out["notes"].append("simulation time box reached after %s states on %s random histories" % (m[-1] if m else ("0", "0")))
                 if emit_histories:
-                    hs = [json.loads(json.loads(l.strip())[5:]) for l in sorted({l for l in txt.splitlines() if l.startswith('"HIST ')})]
-                    pref = {json.dumps(h[:-1]) for h in hs}
-                    out["sim_histories"] = [h for h in hs if json.dumps(h) not in pref]
+                    hs = [json.loads(json.loads(l.strip())[5:]) for l in sorted({l for l in txt.splitlines() if l.startswith('"HIST ') and l.rstrip().endswith('"')})]
+                    pref = {json.dumps(x["h"][:-1]) for x in hs}
+                    out["sim_histories"] = [x for x in hs if json.dumps(x["h"]) not in pref]
                 continue
             raise
         txt = open(r["out"]).read()
@@ -168,11 +168,10 @@ def mc_heap(pid, tier, invariant, emit_histories=False):
             out["transitions"] += r["states"] or 0
         if emit_histories:
             hs = sorted({l.strip() for l in txt.splitlines() if l.startswith('"HIST ')})
-            hs = [json.loads(json.loads(h)[5:]) for h in hs]
+            hs = [json.loads(json.loads(h)[5:]) for h in hs]    # records {h: history, fin: predicted heap summary}
             if sim:   # every prefix of a random behaviour is printed: keep the maximal ones
-                keys = {json.dumps(h) for h in hs}
-                pref = {json.dumps(h[:-1]) for h in hs}
-                out["sim_histories"] = [h for h in hs if json.dumps(h) not in pref]
+                pref = {json.dumps(x["h"][:-1]) for x in hs}
+                out["sim_histories"] = [x for x in hs if json.dumps(x["h"]) not in pref]
             else:
                 out["histories"] = hs
         m = re.search(r"(\d+) states checked, (\d+) traces generated", txt)
@@ -182,25 +181,59 @@ def mc_heap(pid, tier, invariant, emit_histories=False):
 
 
 def history_directed(pid, tier, mc):
-    """linear programs for the design model's histories: a sample of the BFS histories (longest first) and every random deep
-    history, each unpadded and - for a smaller sample - behind 6 and 13 padding variables (destinations spilled on x86-64 / AArch64)"""
+    """linear programs for the design model's histories: a sample of the BFS histories (longest first) and a sample of the
+    random deep ones, each unpadded and - for a smaller sample - behind 6 and 13 padding variables (destinations spilled on
+    x86-64 / AArch64).  -> (directed programs, {program name: heap summary the design model predicts at the end})"""
     hs = mc["histories"]
     r = rng_for(pid + "h")
     if len(hs) > T(tier, 450, 40000):
-        longest = [h for h in hs if len(h) >= max(len(x) for x in hs)]
+        deepest = max(len(x["h"]) for x in hs)
+        longest = [x for x in hs if len(x["h"]) >= deepest]
         hs = r.sample(longest, min(len(longest), T(tier, 350, 30000))) + r.sample(hs, T(tier, 100, 10000))
-    directed = [("hist%d" % i, GL.history_program(h), [[]]) for i, h in enumerate(hs)]
+    directed, expect = [], {}
+
+    def add(name, x, pad):
+        directed.append((name, GL.history_program(x["h"], pad), [[]]))
+        expect[name] = x["fin"]
+    for i, x in enumerate(hs):
+        add("hist%d" % i, x, 0)
     padded = r.sample(hs, min(len(hs), T(tier, 120, 6000)))
     sims = mc["sim_histories"]   # includes the unchosen successors TLC evaluated along each random behaviour: sample the deep ones
     if sims:
-        deep = max(len(h) for h in sims)
-        sims = [h for h in sims if len(h) >= 0.6 * deep]
+        deep = max(len(x["h"]) for x in sims)
+        sims = [x for x in sims if len(x["h"]) >= 0.6 * deep]
         sims = r.sample(sims, min(len(sims), T(tier, 16, 600)))
     for pad in (0, 6, 13):
-        directed += [("simhist%d_p%d" % (i, pad), GL.history_program(h, pad), [[]]) for i, h in enumerate(sims)]
+        for i, x in enumerate(sims):
+            add("simhist%d_p%d" % (i, pad), x, pad)
         if pad:
-            directed += [("hist_p%d_%d" % (pad, i), GL.history_program(h, pad), [[]]) for i, h in enumerate(padded)]
-    return directed
+            for i, x in enumerate(padded):
+                add("hist_p%d_%d" % (pad, i), x, pad)
+    return directed, expect
+
+
+def design_conformance(pid, expect, backends=("x86", "a64", "rv64")):
+    """post hook: the concrete heap at the last statement marker of a replayed history must be the heap the design model
+    (spec/AxCutHeap.tla) predicts: same head blocks of both free lists, same list lengths, same reachable count, same frontier"""
+    def post(art, index, args, work, stats):
+        viols = []
+        for be in backends:
+            n = 0
+            p = os.path.join(work, "results-%s.json" % be)
+            if not os.path.exists(p):
+                continue
+            for x in json.load(open(p)):
+                name = x["case"].partition("@")[0]
+                if name in expect and x["status"] == "done":
+                    n += 1
+                    if x["fin"] != expect[name]:
+                        rp = save_replay(pid, "design-conformance-%s-%s" % (be, name), {"backend": be, "program": name, "predicted": expect[name], "observed": x["fin"]})
+                        viols.append({"signature": "%s:%s:design-conformance" % (pid, be), "replay": rp,
+                                      "what": "%s on %s: heap after the history differs from the design model's prediction (predicted %s, observed %s)"
+                                              % (name, be, expect[name], x["fin"])})
+            stats.setdefault(be, {})["design_conformance_cases"] = n
+        return viols
+    return post
 
 
 def check_C10(tier):
@@ -222,11 +255,13 @@ def check_C10(tier):
         return viols
     plan = T(tier, [("objects", 80), ("base", 60), ("noprint", 40)], [("objects", 1500), ("base", 1500), ("noprint", 800)])
     mc = mc_heap("C10", tier, "Footprint", emit_histories=True)
+    directed, expect = history_directed("C10", tier, mc)
+    conf = design_conformance("C10", expect)
     return lockstep.lockstep_check(
-        "C10", tier, ["x86", "a64", "rv64"], plan, extra_viols=mc["viols"], directed=history_directed("C10", tier, mc),
+        "C10", tier, ["x86", "a64", "rv64"], plan, extra_viols=mc["viols"], directed=directed,
         extra_cov={"design_model": {"module": "spec/AxCutHeap.tla", "invariant": "Footprint (frontier <= peak reachable + 1)", "distinct_states": mc["states"],
                                     "states_generated": mc["transitions"], "notes": mc["notes"]}}, maxsteps=T(tier, 60000, 1500000), nblocks=160, timeout=T(tier, 900, 7000),
-        extra=loops_extra(tier), post=same_frontier, level="model_checking",
+        extra=loops_extra(tier), post=lambda *a: same_frontier(*a) + conf(*a), level="model_checking",
         extra_rule="Footprint: frontier <= peak reachable blocks + 2 at every statement boundary; build-and-drop loops "
                    "(corpus/loops) run with n = 0,1,4,16(,64,256) iterations and must end with the same frontier for n >= 4; "
                    "the allocator design model's mutator histories (BFS sample and every random deep history of the TLC "
@@ -237,12 +272,15 @@ def check_C10(tier):
 def check_C09(tier):
     plan = T(tier, [("objects", 90), ("base", 70), ("spill", 30), ("noprint", 40)], [("objects", 2000), ("base", 1500), ("spill", 600), ("noprint", 800)])
     mc = mc_heap("C09", tier, "HeapConsistent", emit_histories=True)
-    directed = history_directed("C09", tier, mc)
+    directed, expect = history_directed("C09", tier, mc)
+    # explicit substitutions that copy (share n times) and drop (erase) objects on both sides of each backend's register/spill boundary
+    objpats = lambda n: [k for k in itertools.product("eo", repeat=n) if "o" in k]
+    directed += GL.fam_subst_exhaustive(2, T(tier, 3, 4), [0, 5, 6, 12, 13], kind_patterns=objpats) + GL.fam_subst_random(rng_for("C09s"), T(tier, 120, 3000))
     return lockstep.lockstep_check(
         "C09", tier, ["x86", "a64", "rv64"], plan, extra_viols=mc["viols"], directed=directed,
         extra_cov={"design_model": {"module": "spec/AxCutHeap.tla", "invariant": "HeapConsistent (HeapInv in every reachable state)", "distinct_states": mc["states"],
                                     "states_generated": mc["transitions"], "notes": mc["notes"]}}, maxsteps=T(tier, 20000, 200000), nblocks=160, timeout=T(tier, 900, 7000),
-        extra=loops_extra("quick"), level="model_checking",
+        extra=loops_extra("quick"), level="model_checking", post=design_conformance("C09", expect),
         extra_rule="HeapInv (spec/HeapInv.tla) evaluated on the concrete heap words and registers at every statement marker; "
                    "MemInBounds at every instruction; plus replay of the allocator design model's mutator histories (spec/AxCutHeap.tla, "
                    "every let/dup/drop/switch sequence up to the level bound, sampled in the quick tier, and the random deep histories of "
